@@ -120,6 +120,11 @@ class G:
             m = r.choice([x for x in named if x.name] or named)
             if not m.name:
                 return '{ %s }' % self.member(ms[0], depth)
+            nm = [x for x in named if x.name and x.kind in ('scalar', 'bitfield')]
+            if m.kind in ('scalar', 'bitfield') and len(nm) > 1 and r.random() < 0.4:
+                # a later designator names another member: it replaces the earlier one (6.7.9p19)
+                first = r.choice([x for x in nm if x is not m])
+                return '{ .%s = %s, .%s = %s }' % (first.name, self.member(first, depth), m.name, self.member(m, depth))
             return '{ .%s = %s }' % (m.name, self.member(m, depth))
         k = r.random()
         items = []
